@@ -297,34 +297,66 @@ def gen_fix(rng, n):
         yield {"dim": dim, "kind": kind, "M": [G.qv(r) for r in M], "g": [G.qv(r) for r in g]}
 
 
+def _eigen_directions(M, n):
+    """The harness's own list of eigen-directions of the isometry (row convention: v M = lambda v), as the data the
+    ordering model is evaluated on: numpy's eigenvectors, with the eigenvectors of each real eigenvalue +-1 replaced by
+    a Minkowski-orthogonal basis of its eigenspace (svd kernel + eigh of the restricted form).  Nothing of the
+    implementation is called here."""
+    ev, evec = np.linalg.eig(M.T)
+    ev, evec = np.array(ev, dtype=complex), np.array(evec, dtype=complex)
+    Jn = G.J(n - 1)
+    for sgn in (1.0, -1.0):
+        u, sv, vt = np.linalg.svd(M.T - sgn * np.eye(n))
+        k = int(np.sum(sv < 1e-8 * max(1.0, sv[0])))
+        if k == 0:
+            continue
+        K = vt[n - k:].T
+        _, co = np.linalg.eigh(K.T @ Jn @ K)
+        idx = np.argsort(np.abs(ev - sgn))[:k]
+        evec[:, idx] = K @ co
+        ev[idx] = sgn
+    return ev, evec
+
+
+def _multiplier(v, M):
+    """(lambda, residual) with v M ~ lambda v"""
+    w = v @ M
+    lam = float(w @ v) / float(v @ v)
+    return lam, float(np.abs(w - lam * v).max() / (np.abs(v).max() * max(1.0, np.abs(M).max())))
+
+
 def run_fix(inp):
     M = G.fm(inp["M"])
-    ev0, evec0 = np.linalg.eig(M.T)
+    n = M.shape[0]
+    Jn = G.J(inp["dim"])
+    ev, evec = _eigen_directions(M, n)
+    norms = np.einsum("ki,ij,kj->k", evec.T, Jn, evec.T)
+    # for every real eigen-direction: is it the only point of the closed ball fixed with that multiplier?  (the
+    # eigenspace is a line, or the form on it is positive semidefinite with a one-dimensional radical)
+    unique = []
+    for k in range(n):
+        if abs(ev[k].imag) > 1e-9:
+            unique.append(False)
+            continue
+        sv = np.linalg.svd(M.T - ev[k].real * np.eye(n), compute_uv=False)
+        kd = int(np.sum(sv < 1e-6 * max(1.0, sv[0])))
+        if kd <= 1:
+            unique.append(True)
+            continue
+        E = np.linalg.svd(M.T - ev[k].real * np.eye(n))[2][n - kd:].T
+        gv = np.linalg.eigvalsh(E.T @ Jn @ E)
+        unique.append(bool(gv[0] > -1e-7 and gv[1] > 1e-7))
+    # PUBLIC interface only: fixed_point, fixed_point_pair, axis
     iso = H.Isometry(M.copy())
-    # the (repaired) code first replaces eig's basis of the fixed vectors by a Minkowski-orthogonal basis of
-    # ker(M - I) sorted by norm (svd + eigh: contracts, checked below); the ordering model sees the refined data
-    ev, evec = iso._refine_fixed_vectors(ev0, evec0)
-    data = np.array(iso._fixpoint_data())
-    norms = np.einsum("ki,ij,kj->k", evec.T, G.J(inp["dim"]), evec.T)
-    order = []
-    for row in data:
-        hits = [k for k in range(len(ev)) if np.array_equal(row, evec[:, k])]
-        order.append(hits)
-    # the refined fixed vectors: real columns with eigenvalue set to exactly 1 that are fixed by M
-    n = len(ev)
-    cand = [k for k in range(n) if ev[k] in (1, -1) and np.abs(np.imag(evec[:, k])).max() == 0.0]
-    lam = np.array([float(np.real(ev[k])) for k in cand])
-    B = np.real(evec[:, cand]).T if cand else np.zeros((0, n))
-    gram = B @ G.J(inp["dim"]) @ B.T if cand else np.zeros((0, 0))
-    kdim = int(np.sum(np.linalg.svd(M.T - np.eye(n), compute_uv=False) < 1e-8)
-               + np.sum(np.linalg.svd(M.T + np.eye(n), compute_uv=False) < 1e-8))   # independent computation
-    return {"abs": np.abs(ev).tolist(), "absim": np.abs(np.imag(ev)).tolist(), "norm_re": np.real(norms).tolist(),
-            "norm_im": np.imag(norms).tolist(), "order": order,
-            "refine": {"count": len(cand), "kdim": kdim,
-                       "fixed": float(np.abs(B @ M - lam[:, None] * B).max()) if cand else 0.0,
-                       "offdiag": float(np.abs(gram - np.diag(np.diag(gram))).max()) if cand else 0.0,
-                       "min_norm": float(np.min(np.diag(gram))) if cand else None,
-                       "rank": int(np.linalg.matrix_rank(B, tol=1e-8)) if cand else 0}}
+    fp = np.array(iso.fixed_point().proj_data, dtype=float)
+    pair = np.array(iso.fixed_point_pair().proj_data, dtype=float)
+    out = {"abs": np.abs(ev).tolist(), "absim": np.abs(np.imag(ev)).tolist(), "norm_re": np.real(norms).tolist(),
+           "norm_im": np.imag(norms).tolist(), "unique": unique,
+           "cand": np.real(evec.T).tolist(), "fp": fp.tolist(), "pair": pair.tolist()}
+    if inp["kind"] in ("lox", "refl_lox"):
+        ax = iso.axis()
+        out["axis"] = np.array(ax.ideal_basis, dtype=float).tolist()
+    return out
 
 
 def lean_fix(inp, obs):
@@ -335,25 +367,52 @@ def lean_fix(inp, obs):
 
 
 def judge_fix(inp, obs, lr):
+    """the points returned by the public interface are, projectively, the eigen-directions the ordering model puts first
+    (GT.C15.fixOrder_head_max: in the closed ball before outside, real before complex, larger modulus first).  Where the
+    model's choice is not a single point of the closed ball (a rotation of H^n, n >= 3, fixes a whole subspace) only its
+    key is compared: a fixed point of the closed ball with the same multiplier."""
     tags = {"kind": inp["kind"], "dim": inp["dim"]}
     if "exc" in obs:
-        return exc(obs, "fixpoint data", tags)
+        return exc(obs, "fixed points", tags)
     e = drv_err(lr)
     if e:
         return e
-    rf = obs["refine"]
-    semisimple = inp["kind"] != "par"
-    if not (rf["rank"] == rf["kdim"] and rf["fixed"] <= 1e-8 and (not semisimple or (rf["count"] == rf["kdim"] and rf["offdiag"] <= 1e-8))):
-        return {"expected": "refinement contract: real fixed vectors spanning ker(M - I), Minkowski-orthogonal", "observed": rf,
-                "tags": dict(tags, what="refine contract")}
-    if inp["kind"] in ("rot", "par") and not (rf["count"] >= 1 and rf["min_norm"] <= 1e-8):
-        return {"expected": "elliptic / parabolic: a refined fixed vector lies in the closed light cone", "observed": rf,
-                "tags": dict(tags, what="refine in ball"), "property_failure": True}
+    M = G.fm(inp["M"])
     model = lr[0]["ok"]
-    # a complex norm exactly on the threshold's real part would be decided by its imaginary part: not generated
-    for pos, (hits, m) in enumerate(zip(obs["order"], model)):
-        if m not in hits:
-            return {"expected": {"order": model}, "observed": obs["order"], "tags": dict(tags, pos=pos)}
+    cand = np.array(obs["cand"])
+    sc = 1 + np.abs(M).max() ** 2
+    # a defective eigenvalue (parabolic) is only resolved to the square root of the rounding unit
+    ptol = (2e-4 if inp["kind"] == "par" else 1e-7) * sc
+
+    def inball(k):
+        return not (obs["norm_re"][k] > 1e-8 or obs["absim"][k] > 1e-8)
+
+    def compare(v, k, what):
+        v = np.array(v)
+        if not inball(k):
+            return None          # the model's choice is not a point of the closed ball: nothing is promised
+        lam, res = _multiplier(v, M)
+        nv = G.mink(v, v) / float(v @ v)
+        if res > ptol or abs(abs(lam) - obs["abs"][k]) > ptol * max(1.0, obs["abs"][k]) or nv > ptol:
+            return {"expected": {"fixed point of the closed ball with multiplier of modulus": obs["abs"][k]},
+                    "observed": {"point": v.tolist(), "multiplier": lam, "residual": res, "norm": nv},
+                    "tags": dict(tags, what=what), "property_failure": True}
+        if obs["unique"][k] and not G.proj_equal(v, cand[k], ptol):
+            return {"expected": {"projectively the model's choice (eigen-direction %d)" % k: cand[k].tolist()},
+                    "observed": v.tolist(), "tags": dict(tags, what=what)}
+        return None
+
+    r = compare(obs["fp"], model[0], "fixed_point") or compare(obs["pair"][0], model[0], "fixed_point_pair[0]") \
+        or compare(obs["pair"][1], model[1], "fixed_point_pair[1]")
+    if r:
+        return r
+    if inp["kind"] in ("rot", "par") and not inball(model[0]):
+        return {"expected": "elliptic / parabolic: the first eigen-direction lies in the closed ball", "observed": obs["norm_re"],
+                "tags": dict(tags, what="in ball"), "property_failure": True}
+    if "axis" in obs:
+        ax = np.array(obs["axis"])
+        if not (G.proj_equal(ax[0], obs["pair"][0], 1e-7) and G.proj_equal(ax[1], obs["pair"][1], 1e-7)):
+            return {"expected": {"axis through the fixed point pair": obs["pair"]}, "observed": ax.tolist(), "tags": dict(tags, what="axis")}
     return None
 
 
@@ -1124,9 +1183,9 @@ CLAUSES = [
     Clause("spectrum_corr", "corr", gen_spectrum, run_spectrum, judge_spectrum, lean=lean_spectrum, site="hyperbolic.Hyperplane.from_reflection",
            budget={"quick": 150, "thorough": 3000},
            what="from_reflection accept/reject on exact conjugates (reflection, rotation, loxodromic, parabolic, glide reflection, two reflections, identity) vs Lean isReflSpectrum on eig's output"),
-    Clause("fixorder_corr", "corr", gen_fix, run_fix, judge_fix, lean=lean_fix, site="hyperbolic.Isometry._fixpoint_data",
+    Clause("fixorder_corr", "corr", gen_fix, run_fix, judge_fix, lean=lean_fix, site="hyperbolic.Isometry.fixed_point",
            budget={"quick": 150, "thorough": 3000},
-           what="order of the eigenvectors returned by _fixpoint_data vs Lean fixOrder (stable lexsort + flip) on eig's output"),
+           what="fixed_point / fixed_point_pair / axis (public interface only) are projectively the eigen-directions Lean fixOrder puts first on the harness's own spectral data; key-level comparison where the choice is not a single point"),
     Clause("reflection_oracle", "oracle", gen_o_reflect, run_o_reflect, judge_o_reflect, site="hyperbolic.Subspace.reflection_across",
            budget={"quick": 200, "thorough": 6000},
            what="single and composite spacelike normals dims 2-4: involutive, form preserving, det -1, wall fixed pointwise, normal negated, from_reflection round trip (Hyperplane; Geodesic in dim 2)"),
